@@ -1,12 +1,16 @@
 """Validation of the PyMini reference interpreter (coq/Spec/PyMini.v) against CPython: the real pure helpers
 of /repo are run on enumerated arguments, and Coq runs the interpreter on the syntax trees regenerated from
-their source (coq/Gen/Pure.v) on the same arguments.  Used as an extra correspondence pass by the checks whose
-models are tied to the source through Proofs/PureTie.v (C03, C06, C10)."""
+their source (coq/Gen/Pure.v) on the same arguments, in the context coq/Spec/PyEnv.v (module globals from the
+generated tables, callees = the other generated trees, oracles for bytes.decode / codecs.getdecoder -- so the
+oracles are validated against CPython here too).  Used as an extra correspondence pass by the checks whose
+models are tied to the source through Proofs/PureTie.v / Proofs/PureTieKeys.v (C03, C06, C10, C20)."""
+import enum
 import itertools
 
 import canon
 
-REQUIRE = "From Curtsies Require Import Model.Base Spec.PyMini Gen.Pure Corr.PureCorr."
+REQUIRE = ("From Coq Require Import String.\nFrom Curtsies Require Import Model.Base Spec.PyMini Gen.Pure Spec.PyEnv "
+           "Corr.PureCorr.\nLocal Open Scope string_scope.")
 CASE_TYPE = "PureCorr.case"
 MODEL_OK = "PureCorr.model_ok"
 SPEC_OK = "PureCorr.spec_ok"
@@ -25,6 +29,14 @@ def coq_val(v):
         return "(VSlice %s %s %s)" % (coq_val(v.start), coq_val(v.stop), coq_val(v.step))
     if isinstance(v, bytes):
         return "(VBytes [%s]%%N)" % ";".join(str(b) for b in v)
+    if isinstance(v, str):
+        return "(VStr [%s]%%N)" % ";".join(str(ord(c)) for c in v)
+    if isinstance(v, enum.Enum):
+        return '(PureCorr.kn "%s")' % v.name
+    if isinstance(v, list):
+        if all(isinstance(x, bytes) and len(x) == 1 for x in v):
+            return "(PureCorr.bl [%s]%%N)" % ";".join(str(x[0]) for x in v)      # = VList [VBytes [b]; ...]
+        return "(VList [%s])" % "; ".join(coq_val(x) for x in v)
     raise ValueError("value outside PyMini: %r" % (v,))
 
 
@@ -56,10 +68,142 @@ def _utf8_args(tier):
             yield (bytes([o]) + t,)
 
 
+# ---- the key-decoding cascade (curtsies.events) -----------------------------------------------------------------
+ENCS = ["utf-8", "ascii", "latin-1"]
+ALIASES = ["utf8", "UTF-8", "us-ascii", "latin1", "iso-8859-1"]
+SAMPLE_NEXT = [0x41, 0x7E, 0x1B, 0x5B, 0x80, 0xC3, 0xFF]
+CHARS = ["\x00", "a", "\x7f", "\x80", "\xe9", "\u07ff", "\u0800", "\u20ac", "\ud7ff", "\ue000", "\uffff",
+         "\U00010000", "\U0001f600", "\U0010ffff"]
+BAD_MULTI = [b"\xc3\x28", b"\xc0\x80", b"\xe0\x80\x80", b"\xed\xa0\x80", b"\xf4\x90\x80\x80", b"\xf8\x88\x80\x80\x80",
+             b"\xfc\x84\x80\x80\x80\x80", b"\xff\xff", b"\x80\x80", b"\xe2\x82\x41", b"a\xff", b"\xc3\xa9\xc3"]
+
+
+def _events():
+    from curtsies import events
+    return events
+
+
+def _key_strings():
+    """all table sequences and all their non-empty prefixes"""
+    ev = _events()
+    out = set()
+    for k in list(ev.CURTSIES_NAMES) + list(ev.CURSES_NAMES):
+        for i in range(1, len(k) + 1):
+            out.add(k[:i])
+    return sorted(out)
+
+
+def _char_strings():
+    out = set()
+    for c in CHARS:
+        b = c.encode("utf-8", "surrogatepass")
+        for i in range(1, len(b) + 1):
+            out.add(b[:i])
+    return sorted(out) + BAD_MULTI
+
+
+def _situations():
+    ev = _events()
+    return [(m, f) for m in (ev.Keynames.CURTSIES, ev.Keynames.CURSES, ev.Keynames.BYTES) for f in (False, True)]
+
+
+def _chunks(b):
+    return [bytes([x]) for x in b]
+
+
+def _get_key_args(tier):
+    ev = _events()
+    sits = _situations()
+    keys = _key_strings()
+    n = 0
+    # every table sequence and prefix, every single byte, characters and their prefixes, ill-formed ones:
+    # all 3 encodings x 3 naming modes x 2
+    base = keys + [bytes([b]) for b in range(256)] + _char_strings()
+    longs = [bytes(range(65, 65 + ev.MAX_KEYPRESS_SIZE + 1)), b"\x1b" * (ev.MAX_KEYPRESS_SIZE + 1),
+             bytes(range(65, 65 + ev.MAX_KEYPRESS_SIZE)), b"\xe2\x82\xac" * 3, b""]
+    for s in base + longs:
+        for enc in ENCS:
+            for m, f in sits:
+                yield (_chunks(s), enc, m, f)
+    # ... each followed by a sample of bytes (quick: the situations rotate over the cases)
+    for s in keys:
+        for nb in SAMPLE_NEXT:
+            t = s + bytes([nb])
+            for enc in ENCS:
+                if tier == "thorough":
+                    for m, f in sits:
+                        yield (_chunks(t), enc, m, f)
+                else:
+                    n += 1
+                    m, f = sits[n % len(sits)]
+                    yield (_chunks(t), enc, m, f)
+    # default values of the parameters; aliases of the encoding names; chunks longer than one byte; not bytes
+    for s in [b"a", b"\x1b", b"\x1b[A", b"\xc3", b"\xc3\xa9", b"\xff", b"\x1b\xc3"]:
+        for enc in ENCS + ALIASES:
+            yield (_chunks(s), enc)
+            yield (_chunks(s), enc, ev.Keynames.CURSES)
+            yield (_chunks(s), enc, ev.Keynames.BYTES, True)
+    for enc in ENCS:
+        yield ([b"\x1b[", b"A"], enc, ev.Keynames.CURTSIES, False)
+        yield ([b"", b"\xe2\x82", b"", b"\xac"], enc, ev.Keynames.CURSES, True)
+        yield ([], enc, ev.Keynames.CURTSIES, True)
+        yield ([27], enc, ev.Keynames.CURTSIES, True)
+        yield ([b"a", "b"], enc, ev.Keynames.CURTSIES, False)
+        yield ([b"a", None], enc, ev.Keynames.BYTES, False)
+        yield (b"ab", enc, ev.Keynames.CURTSIES, False)          # iterating bytes yields ints
+
+
+def _unfinished_char_args(tier):
+    tails = [b"", b"\x80", b"\xbf\x80", b"a\x80\x80", b"\x80\x80\x80\x80", b"\x80\x80\x80\x80\x80", b"\x80" * 6]
+    for enc in ENCS + (ALIASES if tier == "thorough" else ALIASES[:2]):
+        yield (b"", enc)
+        for o in range(256):
+            for i, t in enumerate(tails):
+                if tier == "thorough" or enc in ENCS or (o + i) % 5 == 0:
+                    yield (bytes([o]) + t, enc)
+        for s in _char_strings():
+            yield (s, enc)
+
+
+def _decodable_args(tier):
+    for enc in ENCS + ALIASES:
+        yield (b"", enc)
+        for o in range(256):
+            yield (bytes([o]), enc)
+        for s in _char_strings():
+            yield (s, enc)
+    step = 7 if tier == "thorough" else 61
+    for enc in ENCS:
+        for k in range(0, 65536, step):
+            yield (bytes([k >> 8, k & 255]), enc)
+        for s in _key_strings()[::3]:
+            yield (s, enc)
+
+
+def _key_name_args(tier):
+    ev = _events()
+    modes = (ev.Keynames.CURTSIES, ev.Keynames.CURSES, ev.Keynames.BYTES)
+    base = _key_strings() + [bytes([b]) for b in range(256)] + _char_strings() + [b""]
+    for s in base:
+        for enc in ENCS:
+            for m in modes:
+                yield (s, enc, m)
+    for s in [b"a", b"\xff", b"\x1b[A", b"\xc3\xa9"]:
+        for enc in ALIASES:
+            for m in modes:
+                yield (s, enc, m)
+
+
+EMPTY = "empty_ctx"
 FUNCS = {
-    "normalize_slice": ("curtsies.formatstring", "py_normalize_slice", _normalize_slice_args),
-    "interval_overlap": ("curtsies.formatstring", "py_interval_overlap", _interval_args),
-    "could_be_unfinished_utf8": ("curtsies.events", "py_could_be_unfinished_utf8", _utf8_args),
+    "normalize_slice": ("curtsies.formatstring", "py_normalize_slice", _normalize_slice_args, EMPTY),
+    "interval_overlap": ("curtsies.formatstring", "py_interval_overlap", _interval_args, EMPTY),
+    "could_be_unfinished_utf8": ("curtsies.events", "py_could_be_unfinished_utf8", _utf8_args, EMPTY),
+    # in the context of the events module: Spec/PyEnv.v, the stratum the function lives in
+    "decodable": ("curtsies.events", "py_decodable", _decodable_args, "ctx0"),
+    "_key_name": ("curtsies.events", "py_key_name", _key_name_args, "ctx0"),
+    "could_be_unfinished_char": ("curtsies.events", "py_could_be_unfinished_char", _unfinished_char_args, "ctx1"),
+    "get_key": ("curtsies.events", "py_get_key", _get_key_args, "ctx2"),
 }
 
 
@@ -70,7 +214,7 @@ class Pass:
     def __init__(self, fname):
         import importlib
         self.fname = fname
-        modname, self.coqname, self.args = FUNCS[fname]
+        modname, self.coqname, self.args, self.ctx = FUNCS[fname]
         self.fn = getattr(importlib.import_module(modname), fname)
 
     def inputs(self, tier):
@@ -81,4 +225,4 @@ class Pass:
 
     def to_coq(self, args, out):
         exp = "(Ok %s)" % coq_val(out[1]) if out[0] == "ok" else "(Raise %s)" % out[1]
-        return "PureCorr.mkCase %s [%s] %s" % (self.coqname, "; ".join(coq_val(a) for a in args), exp)
+        return "PureCorr.mkCase %s %s [%s] %s" % (self.ctx, self.coqname, "; ".join(coq_val(a) for a in args), exp)
